@@ -322,8 +322,23 @@ func c16b(c *Ctx) {
 			}
 			ok := false
 			for _, o := range ops {
-				if o == owner || strings.Contains(o, owner+".") || strings.HasPrefix(o, tok+".") || o == tok || (strings.HasPrefix(o, "$") && strings.HasPrefix(tok, o+".")) {
+				if o == owner || strings.HasPrefix(o, tok+".") || o == tok || (strings.HasPrefix(o, "$") && strings.HasPrefix(tok, o+".")) {
 					ok = true
+				}
+				// a field of the owner itself (not of an element of one of its collections)
+				for from := 0; ; {
+					i := strings.Index(o[from:], owner+".")
+					if i < 0 {
+						break
+					}
+					rest := o[from+i+len(owner)+1:]
+					if j := strings.IndexAny(rest, ",)] \""); j >= 0 {
+						rest = rest[:j]
+					}
+					if !strings.Contains(rest, "[") {
+						ok = true
+					}
+					from += i + 1
 				}
 				// parallel slices: TokenItems[i] <-> Items[i]
 				if strings.Contains(tok, ".TokenItems[") && o == strings.Replace(tok, ".TokenItems[", ".Items[", 1) {
